@@ -252,7 +252,7 @@ func init() {
 		SelfTest:    trieSelfTest,
 		Units: []Unit{
 			{Name: "exhaustive", QShards: 4, TShards: 12, Run: c15Exhaustive},
-			{Name: "random", QShards: 2, TShards: 8, Run: c15Random},
+			{Name: "random", QShards: 6, TShards: 12, Run: c15Random},
 		},
 	})
 }
@@ -322,7 +322,7 @@ func c15Exhaustive(c *Ctx) {
 }
 
 func c15Random(c *Ctx) {
-	n := c.N(2000, 100000)
+	n := c.N(1500, 60000)
 	for i := 0; i < n; i++ {
 		c.Case(int64(i), func(k *K) {
 			r := k.Rand()
@@ -335,7 +335,7 @@ func c15Random(c *Ctx) {
 					alpha[j] = byte(j)
 				}
 			}
-			maxLen := pick(r, []int{3, 6, 12})
+			maxLen := pick(r, []int{3, 6, 12, 17, 33, 70})
 			t := trie.New()
 			m := newSetModel()
 			var hist []trieOp
@@ -360,8 +360,11 @@ func c15Random(c *Ctx) {
 				default:
 					s = string(randSeq(r, alpha, r.IntN(maxLen+1)))
 				}
-				if len(s) > 14 {
-					s = s[:14]
+				if len(s) > 80 {
+					s = s[:80]
+				}
+				if r.IntN(40) == 0 { // lengths around powers of two (growth points of slices)
+					s = string(randSeq(r, alpha, pick(r, []int{15, 16, 17, 31, 32, 33, 63, 64, 65})))
 				}
 				pool = append(pool, s)
 				o := trieOp{del: r.IntN(3) == 0, s: s}
@@ -379,8 +382,15 @@ func c15Random(c *Ctx) {
 				// probes: prefixes and one-letter extensions of members and of the argument
 				probes := []string{"", s}
 				for _, x := range append(m.Members(), s) {
-					for j := 0; j <= len(x); j++ {
-						probes = append(probes, x[:j])
+					if len(x) <= 12 {
+						for j := 0; j <= len(x); j++ {
+							probes = append(probes, x[:j])
+						}
+					} else { // long member: its ends and a sample of its prefixes
+						probes = append(probes, x[:1], x[:2], x[:len(x)-1], x)
+						for j := 0; j < 6; j++ {
+							probes = append(probes, x[:r.IntN(len(x)+1)])
+						}
 					}
 					probes = append(probes, x+string(alpha[r.IntN(len(alpha))]), x+"a")
 				}
